@@ -654,6 +654,42 @@ func deref2(t types.Type) types.Type {
 	return t
 }
 
+// sinkConnectRule (C05.R6, shared as C16.R4): the sink's connect helpers really connect: Sink.From(p) / FromParam(p)
+// reach the in-port's From with the very port they were given, on every path.
+func (e *Env) sinkConnectRule(rule string) {
+	r := e.R
+	p := e.P
+	for _, c := range []struct{ meth, callee string }{{"From", "(*InPort).From"}, {"FromParam", "(*InParamPort).From"}} {
+		ob := r.Ob(rule, "(*Sink)."+c.meth+":connects", "the sink's "+c.meth+" connects the given out-port to the sink's own in-port (on every path)")
+		fn := p.DeclaredMethod("scipipe", "Sink", c.meth)
+		if fn == nil || len(fn.Params) != 2 {
+			ob.Unknown("-", "(*Sink)."+c.meth+" not found")
+			continue
+		}
+		g := e.XG(fn)
+		if g == nil {
+			continue
+		}
+		arg := ssa.Value(fn.Params[1])
+		isConn := func(n *core.Node) bool {
+			if n.Kind == core.KAfter || n.Callee == nil || core.FuncName(n.Callee) != c.callee || len(n.Call.Args) < 2 {
+				return false
+			}
+			_, v := rootVal(n.Ctx, n.Call.Args[1])
+			return v == arg
+		}
+		entry := g.Run(core.Scenario{Start: g.Entry, AtEntry: true})
+		switch {
+		case len(g.Select(isConn)) == 0:
+			ob.Fail(core.FuncName(fn), "the given port is never passed to "+c.callee+": out-ports that nobody consumes are not drained, their process blocks on its first send")
+		case entry.ReachesAvoiding(func(m *core.Node) bool { return m.Kind == core.KRootRet }, isConn) != nil:
+			ob.Fail(core.FuncName(fn), "the connection is not made on every path")
+		default:
+			ob.OK(core.FuncName(fn), c.callee+"(sink in-port, given port) on every path")
+		}
+	}
+}
+
 // ruleOfKey: "C04.R6@x" -> "R6".
 func ruleOfKey(key string) string {
 	if i := strings.Index(key, "."); i >= 0 {
